@@ -134,6 +134,11 @@ fn apply<'a>(p: Parser<'a>, op: Op) -> R<'a> {
     })
 }
 
+/// apply one operation, dropping the yielded value (used by c01)
+pub fn apply_pub<'a>(p: Parser<'a>, op: Op) -> Result<Parser<'a>, ParseError<'a>> {
+    apply(p, op).map(|x| x.1)
+}
+
 fn dir(d: ParseDirection) -> &'static str {
     match d {
         ParseDirection::FromStart => "S",
